@@ -108,6 +108,12 @@ CHECKS = {
   design_ref="DESIGN.md §4 C16",
   note="Proof for monotonicity and exclusion; exploration for 'builds and runs'. Trusted: Lean kernel + standard axioms; py2lean YAML-formula translator (self-checked against the real patch results); level maxima taken from the property statement.",
   technique="Lean 4 proof over formulas regenerated from the YAML + level-grid exploration of builds"),
+ "C10": dict(
+  category="proof",
+  text="Lean 4 theorems per modelled component class (BuffSkill, AttackSkill, DOTEmittingAttackSkill, PeriodicDamageConfiguratedAttackSkill, ProgrammedPeriodic, TriggableBuff, KeydownSkill — about three quarters of all installed component instances): the validity view never reports a negative remaining time, and whenever it reports the skill usable, `use` on that very state is not rejected, for EVERY state and parameter block (for key-down skills this needs the repaired validity; the unrepaired one is refuted by a witness). Views are total functions in the model. The component models are tied to the code by replaying thousands of harvested real reducer/view calls through the Lean driver (exact equality). For ALL classes (modelled or not) every view is evaluated after every command of seeded plans on all jobs and every skill listed valid is USEd on a restored copy of the checkpoint.",
+  design_ref="DESIGN.md §4 C10",
+  note="Trusted: Lean kernel + standard axioms; hand component models tied by harvested-call replay; classes not modelled are covered by exploration only (listed in the evidence); cooldown/buff-duration results are parameters (proved in C12).",
+  technique="Lean 4 proof per component class + harvested-call replay + forked-USE exploration"),
 }
 
 NOT_YET = "check not built yet in this round (work in progress; see DESIGN.md §6 build order)"
